@@ -434,7 +434,8 @@ MANIFEST = {
             "that the value the real code returns equals the exact derivative of the generic "
             "polynomial of degree (#stencil points - 1) with symbolic coefficients, symbolic x, "
             "dx and bounds, and that no evaluation point leaves the bounds. Bounded by the "
-            "enumerated (n, order, bounds kind, shape, axes) cases; unbounded in the numeric inputs.",
+            "enumerated (n, order, bounds kind, shape, axes) cases; unbounded in the numeric inputs."
+            " The EffectivePotential wrappers are also decided with one temperature per point, and derivT never evaluates the potential at negative temperature.",
     "note": "Reals, not float64 (rounding and the (x+dx)-x trick are outside); table entries "
             "lifted to the rationals they round; narrow domains (hi-lo < span*dx) are a "
             "precondition; hessian claimed to degree order+1 (what a cross stencil can deliver).",
